@@ -68,6 +68,7 @@ ASSUMPTIONS = [
 
 
 def run(ctx):
+    ctx = hr.Gate(ctx)
     a1_arity(ctx)
     e1_sentinel(ctx)
     f1_build_path(ctx)
@@ -88,6 +89,29 @@ def run(ctx):
     b1_backtracking(ctx, roles)
     b2_fresh_paths(ctx)
     r1_forwarding(ctx)
+
+
+def _touched_otherwise(region, name):
+    """statements below `region` that may change container `name` in a way the rules do not model: augmented assignments, re-bindings,
+    method calls other than add / get"""
+    out = []
+    for n in au.walk(region):
+        if isinstance(n, ast.AugAssign):
+            t = n.target
+            while isinstance(t, ast.Subscript):
+                t = t.value
+            if isinstance(t, ast.Name) and t.id == name:
+                out.append(n)
+        elif isinstance(n, ast.Assign) and any(isinstance(t, ast.Name) and t.id == name for t in n.targets):
+            out.append(n)
+        elif isinstance(n, ast.Call) and isinstance(n.func, ast.Attribute) and isinstance(n.func.value, ast.Name) and n.func.value.id == name \
+                and n.func.attr not in ("add", "get", "__getitem__", "__contains__", "keys", "values", "items", "copy"):
+            out.append(n)
+        elif isinstance(n, ast.Call) and not (isinstance(n.func, ast.Attribute) and isinstance(n.func.value, ast.Name) and n.func.value.id == name) \
+                and any(isinstance(a, ast.Name) and a.id == name for a in list(n.args) + [k.value for k in n.keywords]) \
+                and au.call_tail(n) not in ("len", "sorted", "list", "tuple", "set", "sum", "min", "max", "any", "all", "enumerate", "print"):
+            out.append(n)
+    return out
 
 
 def _absent(ctx, F, region, rule, site, construct, what):
@@ -145,8 +169,17 @@ def _queue_normal_form(ctx, F):
         def visit_Call(self, n):
             self.generic_visit(n)
             t = au.call_tail(n)
-            if t == "heappush" and len(n.args) == 2 and isinstance(n.args[0], ast.Name) and n.args[0].id in heaps:
+            if t == "heappush" and len(n.args) == 2 and heap_of(n.args[0]) is not None:
+                if not isinstance(n.args[0], ast.Name):
+                    n.args[0] = ast.copy_location(ast.Name(id=heap_of(n.args[0]), ctx=ast.Load()), n.args[0])      # heappush(q.data, ..) is q.push(..)
                 it = n.args[1]
+                if isinstance(it, ast.Name):
+                    d_it = F.definition(it.id, n) if F._attached(n) else None
+                    if d_it is None:
+                        cands_ = [v_ for st_ in au.stmts(fn.body) for nm_, v_ in sym.split_assign(st_) if nm_ == it.id]
+                        d_it = cands_[0] if len(cands_) == 1 else None
+                    if isinstance(d_it, ast.Call) and au.call_tail(d_it) == "PriorityItem":
+                        it = d_it
                 if isinstance(it, ast.Call) and au.call_tail(it) == "PriorityItem":
                     got = {}
                     for i, a in enumerate(it.args):
@@ -159,8 +192,9 @@ def _queue_normal_form(ctx, F):
                                                           args=[got[fields[0]], got[fields[1]]], keywords=[]), n)
                 bad[0] = True
                 return n
-            if t == "heappop" and len(n.args) == 1 and isinstance(n.args[0], ast.Name) and n.args[0].id in heaps:
-                return ast.copy_location(ast.Call(func=ast.Attribute(value=n.args[0], attr="get", ctx=ast.Load()), args=[], keywords=[]), n)
+            if t == "heappop" and len(n.args) == 1 and heap_of(n.args[0]) is not None:
+                return ast.copy_location(ast.Call(func=ast.Attribute(value=ast.Name(id=heap_of(n.args[0]), ctx=ast.Load()), attr="get", ctx=ast.Load()),
+                                                  args=[], keywords=[]), n)
             return n
 
         def _test(self, e):
@@ -354,24 +388,62 @@ def e1_sentinel(ctx):
         return None
 
     def values_only(callee, pname):
-        """the callee never looks at the keys of its dict parameter: it is only used as `p.values()`, `len(p)`,
-        or `for k, x in p.items()` with `k` never read."""
+        """does the callee look at the keys of its dict parameter?  True: never (only `p.values()`, `len(p)`, truth tests, `for k, x in p.items()` /
+        `for k in p` with k used only to read `p[k]`) ; False: a key is used for something else ; None: a use of the parameter is not understood"""
         uses = [n for n in au.walk(callee) if isinstance(n, ast.Name) and n.id == pname and isinstance(n.ctx, ast.Load)]
+        verdict = True
+
+        def key_only_indexes(k, loop):
+            """every read of key variable k is `p[k]`"""
+            for x in au.walk(callee):
+                if isinstance(x, ast.Name) and x.id == k and isinstance(x.ctx, ast.Load):
+                    px = au.parent(x)
+                    if isinstance(px, ast.Subscript) and px.slice is x and isinstance(px.value, ast.Name) and px.value.id == pname:
+                        continue
+                    if isinstance(px, ast.Call) and isinstance(px.func, ast.Attribute) and px.func.attr in ("get", "__getitem__") and isinstance(px.func.value, ast.Name) \
+                            and px.func.value.id == pname and px.args and px.args[0] is x:
+                        continue
+                    if isinstance(px, ast.Call) and au.call_tail(px) in ("print", "str", "repr", "format", "debug", "info", "log"):
+                        continue
+                    return False
+            return True
         for u in uses:
             p = au.parent(u)
-            if isinstance(p, ast.Call) and au.call_tail(p) == "len" and p.args and p.args[0] is u:
+            if isinstance(p, ast.Call) and au.call_tail(p) in ("len", "bool") and p.args and p.args[0] is u:
+                continue
+            if isinstance(p, (ast.If, ast.While, ast.IfExp)) and p.test is u:
+                continue
+            if isinstance(p, ast.UnaryOp) and isinstance(p.op, ast.Not):
+                continue
+            if isinstance(p, ast.BoolOp):
+                continue
+            if isinstance(p, ast.Subscript) and p.value is u and isinstance(p.ctx, ast.Load):
+                continue                        # p[k]: reads a value (where k comes from is judged at the loop that binds it)
+            if isinstance(p, ast.Attribute) and p.attr == "get" and isinstance(au.parent(p), ast.Call) and au.parent(p).func is p:
+                continue
+            if isinstance(p, (ast.For, ast.comprehension)) and p.iter is u and isinstance(p.target, ast.Name):
+                if key_only_indexes(p.target.id, p):
+                    continue
+                verdict = False
                 continue
             if isinstance(p, ast.Attribute) and isinstance(au.parent(p), ast.Call) and au.parent(p).func is p:
                 if p.attr == "values":
                     continue
                 lp = au.parent(au.parent(p))
-                if p.attr == "items" and isinstance(lp, ast.For) and lp.iter is au.parent(p) and isinstance(lp.target, ast.Tuple) \
+                if p.attr == "items" and isinstance(lp, (ast.For, ast.comprehension)) and lp.iter is au.parent(p) and isinstance(lp.target, ast.Tuple) \
                         and len(lp.target.elts) == 2 and isinstance(lp.target.elts[0], ast.Name):
-                    k = lp.target.elts[0].id
-                    if not any(isinstance(x, ast.Name) and x.id == k and isinstance(x.ctx, ast.Load) for x in au.walk(callee)):
+                    if key_only_indexes(lp.target.elts[0].id, lp):
                         continue
-            return False
-        return True
+                    verdict = False
+                    continue
+                if p.attr == "keys" and isinstance(lp, (ast.For, ast.comprehension)) and lp.iter is au.parent(p) and isinstance(lp.target, ast.Name):
+                    if key_only_indexes(lp.target.id, lp):
+                        continue
+                    verdict = False
+                    continue
+            if verdict is True:
+                verdict = None
+        return verdict
 
     def classify(n):
         """n: a Name node that holds the sentinel at this point.  None = accepted; ('escape', text); ('unknown', text)"""
@@ -383,8 +455,14 @@ def e1_sentinel(ctx):
                 return None
             if k == "list":
                 d_ = F.definition(r.id, n)
+                d_ = F.resolve(d_, n) if d_ is not None else None
                 if d_ is not None and any(isinstance(x, ast.BinOp) and isinstance(x.op, ast.Add) and any(au.const(y) == 1 for y in (x.left, x.right)) for x in ast.walk(d_)):
                     return ("unknown", "indexes a list that has one extra slot")
+                grown = [c_ for c_ in au.calls(fn) if isinstance(c_.func, ast.Attribute) and c_.func.attr in ("append", "extend", "insert") and isinstance(c_.func.value, ast.Name)
+                         and F.root(c_.func.value.id, c_) == F.root(r.id, n)]
+                odd_range = d_ is not None and any(isinstance(x, ast.Call) and au.call_tail(x) == "range" and len(x.args) != 1 for x in ast.walk(d_))
+                if grown or odd_range or d_ is None:
+                    return ("unknown", "indexes a list whose size is not the number of vertices")
                 return ("escape", "indexes a list / array (a negative index silently aliases the slot of the last vertex)")
             return ("unknown", "indexes a container whose construction is not visible in this function")
         if isinstance(p, ast.Tuple) and isinstance(au.parent(p), ast.Subscript) and au.parent(p).slice is p:
@@ -416,9 +494,28 @@ def e1_sentinel(ctx):
                     callee = r[1]
                     ps = [a.arg for a in callee.args.posonlyargs + callee.args.args]
                     i = [id(a) for a in c.args].index(id(p))
-                    if i < len(ps) and values_only(callee, ps[i]):
+                    vo = values_only(callee, ps[i]) if i < len(ps) else None
+                    if vo is True:
                         return None
+                    if vo is None:
+                        return ("unknown", f"is a key of a dictionary handed to {c.func.id}(...), whose use of the dictionary is not understood")
                 return ("escape", f"is a key of a dictionary handed to {c.func.id}(...), which does not only read .values()")
+            if isinstance(c, ast.Assign) and len(c.targets) == 1 and isinstance(c.targets[0], ast.Subscript) and c.value is p \
+                    and container_kind(_root(c.targets[0].value), n) == "dict":
+                return None             # table[s] = {**table[s], SINK: 0} : a row of a local table
+            if isinstance(c, ast.Assign) and len(c.targets) == 1 and isinstance(c.targets[0], ast.Name) and c.value is p:
+                # a local table created with its sink row: the same as `table[SINK] = ..` later, as long as the table stays local
+                tn = c.targets[0].id
+                def reaches(x):
+                    try:
+                        d_ = F.b.reaching(tn, au.enclosing_stmt(x))
+                    except Exception:
+                        return True
+                    return d_ is p or d_ is None or d_ is sym.Bindings.AMBIG
+                leaves = [x for x in au.walk(fn) if isinstance(x, ast.Name) and x.id == tn and isinstance(x.ctx, ast.Load) and reaches(x)
+                          and (isinstance(au.parent(x), (ast.Return, ast.keyword)) or (isinstance(au.parent(x), ast.Call) and any(a is x for a in au.parent(x).args))
+                               or (isinstance(au.parent(x), (ast.Tuple, ast.List)) and isinstance(au.parent(au.parent(x)), ast.Return)))]
+                return None if not leaves else ("unknown", "is a key of a local dictionary that is handed on")
             return ("escape", "is a key of a dictionary that leaves the local tables")
         if isinstance(p, ast.DictComp) and p.key is n:
             return None
@@ -431,12 +528,16 @@ def e1_sentinel(ctx):
                 return None                      # decided below with the positional model of the list
             if au.call_tail(p) in ("print", "str", "repr", "format", "isinstance", "debug", "info", "warning", "log", "hash", "id", "type"):
                 return None                      # shown / inspected, not used as a vertex
+            if au.call_tail(p) in ("range", "min", "max", "abs", "int", "float", "len", "sorted", "list", "tuple", "set", "chain"):
+                return ("unknown", f"is an argument of {au.call_tail(p)}(..)")
             if isinstance(f, ast.Attribute) and f.attr in ("appendleft",) and isinstance(_root(f.value), ast.Name):
                 appended.append((n, p))
                 return None
             if isinstance(f, ast.Attribute) and isinstance(_root(f.value), ast.Name) and _root(f.value).id not in params \
                     and _root(f.value).id in F.b.count:
                 return ("unknown", f"is passed to a method of a local object in `{au.src(au.enclosing_stmt(n))[:50]}`")
+            if isinstance(f, ast.Name) and f.id in repo.module(PATHS).funcs and f.id != "build_path":
+                return ("unknown", f"is passed to {f.id}(...), a function of the path module whose use of it is not analysed")
             return ("escape", f"is passed as an argument to {au.call_name(p) or au.src(p.func)}(...)")
         if isinstance(p, ast.keyword) and isinstance(au.parent(p), ast.Call):
             return ("escape", f"is passed as an argument to {au.call_name(au.parent(p)) or '<call>'}(...)")
@@ -561,8 +662,8 @@ def e1_sentinel(ctx):
         first = min((n for n, _ in escapes.values()), key=F.pos)
         s2 = ctx.site(PATHS, fn0, first)
         branch = sorted({("" if p else "not ") + au.src(e) for nn, _ in escapes.values() for e, p in au.guards(nn)[-1:]})
-        ctx.fail("C09-E1", s2, f"sentinel {S} escapes the local dictionaries: it " + "; ".join(kinds),
-                 f"{S} = {sval} is the virtual sink, not a vertex of the mesh: the callee / caller receives "
+        ctx.fail("C09-E1", s2, "the sentinel of the virtual sink escapes the local dictionaries",
+                 f"it {'; '.join(kinds)}: {S} = {sval} is the virtual sink, not a vertex of the mesh: the callee / caller receives "
                  f"{sval} as a vertex index (KeyError or a wrong vertex) whenever the branch `{', '.join(branch)}` is taken",
                  escapes=[k for n, k in escapes.values()])
     if unknown:
@@ -1024,19 +1125,27 @@ def f1_build_path(ctx):
         pre_appends = [c for s in fn.body if s is not outer and F.before(s, outer) for c in au.calls(s) if is_append(c, "vertices")]
         if d is not None and len_of_out(d):
             init_ok = True
-        elif d is not None and au.const(d) == 0 and isinstance(ctor, ast.Call) and not ctor.args and not ctor.keywords and not pre_appends:
+        elif d is not None and au.const(d) == 0 and isinstance(ctor, ast.Call) and not pre_appends \
+                and all(hr.is_none(a_) for a_ in ctor.args) and all(hr.is_none(k_.value) for k_ in ctor.keywords):
             init_ok = True
-    ctx.check(init_ok, "C09-F1", site, "the running offset of build_path does not start at the number of vertices already in the path mesh",
-              "the first path must index its own vertices", note=f"offset {K} starts at the size of the (empty) path mesh")
     adv = [p for p in problems if p[0] == "advance"]
     if fresh_all:
         adv = []
+    other = [p for p in problems if p[0] != "advance"]
+    # the three obligations are stated relative to each other (an offset that starts one lower with edges written one higher is the same mesh):
+    # a contradiction is only reported when exactly one of them deviates from the model
+    init_known = init_ok or (not fresh_all and b.reaching(K, outer) is not None and au.const(b.reaching(K, outer)) is not None)
+    n_dev = (0 if init_ok else 1) + (1 if adv else 0) + (1 if other else 0)
+    if n_dev > 1 or (not init_ok and not init_known):
+        ctx.undecided("C09-F1", site, "offset, advance and edge indices of build_path deviate together from the model of the rule", "")
+        return
+    ctx.check(init_ok, "C09-F1", site, "the running offset of build_path does not start at the number of vertices already in the path mesh",
+              "the first path must index its own vertices", note=f"offset {K} starts at the size of the (empty) path mesh")
     ctx.check(not adv, "C09-F1", site,
               "the running offset of build_path is not advanced by the number of vertices appended per path",
               "with two or more paths (several targets, export_path_mesh=True) the edges of every path after the first index "
               "the vertices of the first path: " + "; ".join(t for _, t in adv),
               note="; ".join(facts))
-    other = [p for p in problems if p[0] != "advance"]
     ctx.check(not other, "C09-F1", site,
               "edges of build_path do not join consecutive vertices of the path block",
               "; ".join(sorted({t for _, t in other})), note=f"{n_regions} length regions: edges join block positions (j-1, j), j = 1..len-1")
@@ -1097,6 +1206,9 @@ def q1_priority_queue(ctx):
                 info["priority"] = pr_guess
                 rest_ = [f for f in fields if f != pr_guess]
                 info["payload"] = rest_[0] if rest_ else None
+            elif cmp_fields and cmp_fields[0] != pr_guess and (len(fields) != 2 or cmp_fields[0] != [f_ for f_ in fields if f_ != pr_guess][0]
+                                                              or any(isinstance(x_, ast.FunctionDef) and x_.name == "__post_init__" for x_ in item.body)):
+                ctx.undecided(R, ctx.site(PQ, item), "the order of PriorityItem is generated by dataclass(order=True) on a field the rule does not know", "")
             elif cmp_fields and cmp_fields[0] != pr_guess:
                 ctx.fail(R, ctx.site(PQ, item), "PriorityItem is ordered by its fields in declaration order, the payload first",
                          "heapq then pops items by payload (vertex id), not by priority: get() does not return the minimum label")
@@ -1130,9 +1242,36 @@ def q1_priority_queue(ctx):
     elif formula is not None and formula[0] == "ite":
         # an if-chain: some other order on some condition (tie-breaking by tolerance, by rank ...): the order is not `priority <`
         names = {n.attr for n in ast.walk(lt) if isinstance(n, ast.Attribute) and n.attr in fields}
-        if names:
-            verdict = "bad"
-            pr = "priority" if "priority" in fields else None
+        if names and len(ps) == 2:
+            # decide the chain on sample values: is it `self.f < other.f` for one field f, whatever the other fields are?
+            def symf(n):
+                n = F.resolve(n, F.fn.body[-1])
+                if isinstance(n, ast.Attribute) and isinstance(n.value, ast.Name) and n.value.id in ps and n.attr in fields:
+                    return ("s_" if n.value.id == ps[0] else "o_") + n.attr
+                raise order.Unsupported(au.src(n))
+            try:
+                pred = order.Pred(symf)
+                order.eval_formula(formula, pred, None)
+                agree = {}
+                for f_ in sorted(names):
+                    pred.symbols |= {"s_" + f_, "o_" + f_}
+                n_env = 0
+                for env in order.envs(pred.symbols, pred.consts):
+                    n_env += 1
+                    if n_env > 20000:
+                        raise order.Unsupported("too many cases")
+                    got = order.eval_formula(formula, pred, env)
+                    for f_ in sorted(names):
+                        agree[f_] = agree.get(f_, True) and (got not in (None, "raise")) and bool(got) == (env["s_" + f_] < env["o_" + f_])
+                good_f = [f_ for f_ in sorted(names) if agree.get(f_)]
+                if good_f:
+                    verdict, pr = "ok", good_f[0]
+                else:
+                    verdict = "bad"
+                    pr = "priority" if "priority" in fields else None
+            except (order.Unsupported, KeyError, TypeError):
+                verdict = "unknown"
+                pr = "priority" if "priority" in fields else None
     if verdict == "ok":
         ctx.ok(R, site, "items ordered by priority with <")
     elif verdict == "bad":
@@ -1151,6 +1290,9 @@ def q1_priority_queue(ctx):
     info["payload"] = rest[0]
     extra_fields = rest[1:]
     return _q1_rest(ctx, repo, cls, item, fields, info)
+
+
+HEAPQ_FUNCS = ("heappush", "heappop", "heapify", "heapreplace", "heappushpop", "_siftdown", "_siftup", "merge", "nsmallest", "nlargest")
 
 
 def _heap_aliases(cls):
@@ -1209,6 +1351,8 @@ def _q1_rest(ctx, repo, cls, item, fields, info):
         elif rv is not None and isinstance(rv, ast.Call) and isinstance(rv.func, ast.Attribute) and isinstance(rv.func.value, ast.Name) \
                 and rv.func.value.id == "self" and rv.func.attr in ("get", "pop") and rv.func.attr != mname and not rv.args:
             ctx.ok(R, s, f"{mname} delegates to {rv.func.attr}")
+        elif rv is not None and bad_removal(rv) and any(tail_of(c_) in HEAPQ_FUNCS for c_ in au.calls(Fm.fn)):
+            ctx.undecided(R, s, f"PriorityQueue.{mname} combines heapq with a positional access to self.data", "")
         elif rv is not None and bad_removal(rv):
             ctx.fail(R, s, f"PriorityQueue.{mname} does not return heapq.heappop(self.data)",
                      f"{mname}() must remove and return the minimum-priority item: {bad_removal(rv)}")
@@ -1248,7 +1392,9 @@ def _q1_rest(ctx, repo, cls, item, fields, info):
                 ctx.undecided(R, spush, "the item pushed by PriorityQueue.push is not a PriorityItem(..) call", au.src(it)[:80])
     elif not hp:
         alt = [c for c in au.calls(Fp.fn) if isinstance(c.func, ast.Attribute) and _self_data(c.func.value) and c.func.attr in ("append", "insert", "extend")]
-        if alt:
+        if alt and any(tail_of(c_) in HEAPQ_FUNCS for c_ in au.calls(Fp.fn)):
+            ctx.undecided(R, spush, "PriorityQueue.push restores the heap with a heapq function the rule does not know", "")
+        elif alt:
             ctx.fail(R, spush, "PriorityQueue.push inserts into self.data without heappush",
                      f"`{au.src(alt[0])[:60]}`: the list is a heap only as long as nothing but heapq writes it")
         else:
@@ -1334,14 +1480,17 @@ def _q1_rest(ctx, repo, cls, item, fields, info):
             elif isinstance(par, (ast.For, ast.comprehension)) and par.iter is n:
                 good = True
             elif isinstance(par, ast.Attribute) and isinstance(au.parent(par), ast.Call) and au.parent(par).func is par:
-                good = False if par.attr in ("append", "insert", "extend", "pop", "remove", "sort", "reverse", "clear", "popleft") else None
+                good = False if par.attr in ("append", "insert", "extend", "pop", "remove", "reverse", "popleft") else \
+                    (True if par.attr in ("clear", "copy", "sort", "__len__", "__iter__", "index", "count") else None)   # an empty / sorted list is a heap
             elif isinstance(par, ast.Subscript) and par.value is n and isinstance(par.ctx, (ast.Store, ast.Del)):
                 good = False
+            if good is False and any(tail_of(c_) in HEAPQ_FUNCS for c_ in au.calls(st)):
+                good = None         # the method also goes through heapq: whether the list stays a heap is not decided here
             if good is True:
                 ctx.ok(R, ctx.site(PQ, st, n), "self.data touched through heapq only")
             elif good is False:
-                ctx.fail(R, ctx.site(PQ, st, n), f"{st.name} modifies self.data outside heappush / heappop (`{au.src(au.enclosing_stmt(n))[:60]}`)",
-                         "the list is a heap only as long as nothing but heapq writes it")
+                ctx.fail(R, ctx.site(PQ, st, n), f"{st.name} modifies self.data outside heappush / heappop",
+                         f"`{au.src(au.enclosing_stmt(n))[:60]}`: the list is a heap only as long as nothing but heapq writes it")
             else:
                 ctx.undecided(R, ctx.site(PQ, st, n), f"{st.name} uses self.data in a way the rule does not know", au.src(au.enclosing_stmt(n))[:70])
     if n_uses < 1:
@@ -1382,6 +1531,9 @@ def _q1_every_push_inserts(ctx, pu, Fp):
     if not any(is_push(c) for c in au.calls(Fp.fn)):
         return          # reported by the push rule
     bad = [(k, n) for k, n, st in fl.exits if k in ("return", "fall") and "pushed" not in st]
+    if bad and [c_ for c_ in au.calls(Fp.fn) if isinstance(c_.func, ast.Attribute) and _self_data(c_.func.value) and c_.func.attr in ("append", "insert", "extend")]:
+        ctx.undecided("C09-Q1", ctx.site(PQ, pu), "PriorityQueue.push inserts into self.data on a path that does not go through heappush", "")
+        return
     conds = []
     for k, n in bad:
         if n is not None:
@@ -1447,7 +1599,7 @@ def _q1_priorities_immutable(ctx, fields):
                 for t in au.assign_targets(st):
                     for x in ast.walk(t):
                         if isinstance(x, ast.Attribute) and isinstance(x.ctx, ast.Store) and x.attr == "priority" \
-                                and not (au.is_self_attr(x) and q.startswith("PriorityItem.")):
+                                and not (au.is_self_attr(x) and (q.startswith("PriorityItem.") or q.rsplit(".", 1)[-1] in ("__init__", "__post_init__", "__new__"))):
                             n += 1
                             ctx.fail("C09-Q1", ctx.site(modname, fn, st), "priority of an existing PriorityItem is modified in place",
                                      f"`{au.src(st)}`: heapq orders the list at push time only; lowering the priority of an item that is already "
@@ -1574,7 +1726,10 @@ def _dijkstra_loop(ctx, modname, fn0, F, Q, loop, item):
         if v:
             break
     if v is None:
-        if bad_pop:
+        removals = [c_ for c_ in au.calls(loop) if q_call(c_, ("get", "pop"))]
+        if bad_pop and removals:
+            und("C09-D1", bad_pop[0], "the current node is read at the front of the queue and removed by a separate call")
+        elif bad_pop:
             ctx.fail("C09-D1", S(bad_pop[0]), "current node is not taken from queue.get() / queue.pop()",
                      "Dijkstra must settle the queued node of minimum label and remove it from the queue: " + bad_pop[1])
         elif other_attr and not any(isinstance(n, ast.Attribute) and n.attr == payload for n in au.walk(loop)):
@@ -1585,6 +1740,27 @@ def _dijkstra_loop(ctx, modname, fn0, F, Q, loop, item):
         return None
     ctx.ok("C09-D1", site, "current node = queue.get().<payload>")
     roles["v"] = v
+    # `item = queue.get()` ... `v = item.x` : the iteration starts where the queue is popped, and item.x read elsewhere in the loop is v
+    pv_ = pop_stmt.value if isinstance(pop_stmt, ast.Assign) else None
+    if isinstance(pv_, ast.Attribute) and isinstance(pv_.value, ast.Name) and pv_.attr == payload:
+        item_nm = pv_.value.id
+        defs_ = [st_ for st_ in loop.body if isinstance(st_, ast.Assign) and len(st_.targets) == 1 and isinstance(st_.targets[0], ast.Name)
+                 and st_.targets[0].id == item_nm and q_call(st_.value, ("get", "pop"))]
+        n_binds = [x_ for x_ in au.walk(loop) if isinstance(x_, ast.Name) and x_.id in (item_nm, v) and isinstance(x_.ctx, ast.Store)]
+        if len(defs_) == 1 and len(n_binds) == 2 and F.before(defs_[0], pop_stmt):
+            class _IX(ast.NodeTransformer):
+                def visit_Attribute(self, n_):
+                    if isinstance(n_.ctx, ast.Load) and n_.attr == payload and isinstance(n_.value, ast.Name) and n_.value.id == item_nm:
+                        return ast.copy_location(ast.Name(id=v, ctx=ast.Load()), n_)
+                    return self.generic_visit(n_)
+            body_ = loop.body
+            k0, k1 = sk.index_in(body_, defs_[0]), sk.index_in(body_, pop_stmt)
+            moved = body_[k0 + 1:k1]
+            if not any(isinstance(x_, ast.Name) and x_.id == v for m_ in moved for x_ in ast.walk(m_)):
+                # the binding of v moves up next to the pop: the statements in between only see item.x
+                loop.body = body_[:k0 + 1] + [pop_stmt] + [_IX().visit(m_) for m_ in moved] + [_IX().visit(m_) for m_ in body_[k1 + 1:]]
+                ast.fix_missing_locations(F.fn)
+                F.refresh()
     base_conds = {(hr.key(e), p) for e, p in F.conds(pop_stmt, stop=loop)} if pop_stmt is not None else set()
 
     def LC(node, keep=()):
@@ -1608,6 +1784,12 @@ def _dijkstra_loop(ctx, modname, fn0, F, Q, loop, item):
             e, p = atoms[0]
             if p and isinstance(e, ast.Compare) and len(e.ops) == 1 and isinstance(e.ops[0], ast.In) and isinstance(e.left, ast.Name) \
                     and F.root(e.left.id, brk) == v and isinstance(e.comparators[0], ast.Name) and e.comparators[0].id in F.params:
+                tp_ = e.comparators[0].id
+                per_target = [n_ for n_ in au.walk(F.fn) if isinstance(n_, (ast.For, ast.comprehension)) and F.before(loop, n_ if isinstance(n_, ast.For) else au.enclosing_stmt(n_))
+                              and not F.inside(n_ if isinstance(n_, ast.For) else au.enclosing_stmt(n_), loop) and tp_ in au.names(n_.iter)]
+                if not per_target:
+                    und("C09-D1", brk, "the search is left at the first target reached and the targets are not visited one by one afterwards")
+                    continue
                 ctx.fail("C09-D1", S(brk), "the Dijkstra loop is left as soon as the popped node is one of the targets",
                          "with several targets the search stops at the first one reached: the labels / predecessors of the other targets are not "
                          "final (or never set)")
@@ -1670,6 +1852,23 @@ def _dijkstra_loop(ctx, modname, fn0, F, Q, loop, item):
         ft = hr.flag_test(e, p)
         if ft and isinstance(ft[0], ast.Name) and isinstance(ft[1], ast.Name) and F.root(ft[1].id, nloop) == v and ft[2] is False:
             vis = ft[0].id
+        # `old = visited[v]` read before the mark, tested after it: `if old: continue`
+        if vis is None and isinstance(e, ast.Name) and not p:
+            dflag = F.b.reaching(e.id, nloop)
+            if isinstance(dflag, ast.Subscript) and isinstance(dflag.value, ast.Name) and isinstance(dflag.slice, ast.Name) and F.root(dflag.slice.id, nloop) == v:
+                vis = dflag.value.id
+    # a flag table with the opposite polarity (`unsettled`: starts True, cleared when the node is settled) is not analysed
+    inv_tabs = set()
+    for st_ in au.stmts(loop.body):
+        fm_ = hr.flag_mark(st_)
+        if fm_ and isinstance(fm_[0], ast.Name) and isinstance(fm_[1], ast.Name) and F.root(fm_[1].id, st_) == v and fm_[0].id != roles.get("LBL") and fm_[2] is False:
+            iv_, fd_ = F.initial_values(fm_[0].id, loop)
+            if fd_ and iv_ and all(isinstance(x_, ast.Constant) and x_.value is True for x_ in iv_):
+                inv_tabs.add(fm_[0].id)
+    if inv_tabs and vis is None:
+        und("C09-D2", nloop, "the settled flags are kept with the opposite polarity (a table that starts True and is cleared): this scheme is not analysed")
+        roles["VIS"] = None
+        return roles
     marks_v = []
     for st in au.stmts(loop.body):
         fm = hr.flag_mark(st)
@@ -1713,9 +1912,10 @@ def _dijkstra_loop(ctx, modname, fn0, F, Q, loop, item):
                 bad_kind = "conditional"
                 continue
             good.append(st)
-        if good and not bad_kind:
+        if good and (not bad_kind or bad_kind == "set inside the neighbour loop"):
             ctx.ok("C09-D2", site, "popped node marked settled on the expansion path")
-        elif (not mv and opaque) or bad_kind == "conditional" or (not mv and [x for x in stores if isinstance(x[1].value, ast.Name) and x[1].value.id == vis]):
+        elif (not mv and opaque) or bad_kind == "conditional" or (not mv and [x for x in stores if isinstance(x[1].value, ast.Name) and x[1].value.id == vis]) \
+                or (not mv and _touched_otherwise(loop, vis)):
             und("C09-D2", loop, "the settled mark of the popped node is not recognised")
         else:
             ctx.fail("C09-D2", site, "`visited[v] = True` is missing, conditional, or not set to True after the stale-entry test",
@@ -1743,17 +1943,33 @@ def _dijkstra_loop(ctx, modname, fn0, F, Q, loop, item):
             continue
         conds = LC(st, keep=keep)
         rel = None
+        rels = []
         for (e, p), (er, p2) in zip(conds, LCR(st, keep=keep)):
+            found_ = None
             for cand_e in (e, er):
                 for x in au.walk(cand_e):
-                    if rel is None and is_lbl(x, nv, st):
+                    if found_ is None and is_lbl(x, nv, st):
                         r_ = hr.effective_cmp(cand_e, p, hr.key(x))
                         if r_:
-                            rel = (r_[0], r_[1], e)
+                            found_ = (r_[0], r_[1], e)
+            if found_ is not None:
+                rels.append(found_)
+        if rels:
+            rel = rels[0]
+            if len(rels) > 1:
+                # `label != cand and label > cand`: the strict comparison decides when the other comparisons (with the same candidate) are implied by it
+                stricts = [r_ for r_ in rels if r_[0] is ast.Gt]
+                if stricts and all(r_[0] in (ast.Gt, ast.GtE, ast.NotEq) and hr.same(F.resolve(r_[1], st, keep=keep), F.resolve(stricts[0][1], st, keep=keep)) for r_ in rels):
+                    rel = stricts[0]
+                else:
+                    und("C09-D3", st, "the label update is guarded by several comparisons of the label")
+                    d3_ok = False
+                    continue
         if rel is None:
             unknown_c = [e for e, p in conds if any(isinstance(n, ast.Call) and au.call_tail(n) not in ("len", "isinf") for n in ast.walk(e))
                          and (LBL in au.names(e) or nv in au.names(e))]
-            if conds or unknown_c or opaque or (isinstance(val, ast.Call) and au.call_tail(val) in ("min", "minimum")):
+            if conds or unknown_c or opaque or (isinstance(val, ast.Call) and au.call_tail(val) in ("min", "minimum")) \
+                    or any(is_lbl(x, nv, st) for x in au.walk(F.resolve(val, st, keep=keep))) or any(is_lbl(x, nv, st) for x in au.walk(val)):
                 und("C09-D3", st, "the guard of the label update is not a comparison the rule can read", au.src(unknown_c[0])[:60] if unknown_c else "")
             else:
                 ctx.fail("C09-D3", S(st), "label is written without the test `label[nv] > candidate`",
@@ -1765,14 +1981,33 @@ def _dijkstra_loop(ctx, modname, fn0, F, Q, loop, item):
             ctx.ok("C09-D3", S(st), "label[nv] > candidate (strict)")
         else:
             d3_ok = False
-            ctx.fail("C09-D3", S(st), f"relaxation test `{_generic(cmp_e, LBL, nv, v)}` is not `label[nv] > candidate`",
-                     "with >= a tie rewrites the predecessor of an already settled vertex: two vertices joined by a zero-weight edge "
+            ctx.fail("C09-D3", S(st), "the relaxation test is not `label[nv] > candidate`",
+                     f"`{_generic(cmp_e, LBL, nv, v)}`: with >= a tie rewrites the predecessor of an already settled vertex: two vertices joined by a zero-weight edge "
                      "(every target and the virtual sink are) become each other's predecessor and back-tracking never terminates; "
                      "with < or <= labels never decrease")
         cr = F.resolve(cand, st, keep=keep)
         ar = F.resolve(val, st, keep=keep)
-        if hr.same(cr, ar) or sym.to_poly(cr) == sym.to_poly(ar):
+        while isinstance(ar, ast.Call) and au.call_tail(ar) in ("float", "float64") and len(ar.args) == 1 and not ar.keywords:
+            ar = ar.args[0]              # a numeric conversion of the same value
+
+        class _Prio(ast.NodeTransformer):
+            # the priority of the (non stale) popped entry is the label of the popped node
+            def visit_Attribute(self, n):
+                if n.attr == (item or {}).get("priority", "priority") and q_call(b.resolve(n.value, at=st0, keep=(Q,)), ("get", "pop")):
+                    return sk.sub(LBL, v)
+                return self.generic_visit(n)
+        import copy as _copy
+        crn, arn = _Prio().visit(_copy.deepcopy(cr)), _Prio().visit(_copy.deepcopy(ar))
+        is_min = isinstance(ar, ast.Call) and au.call_tail(ar) in ("min", "minimum") and len(ar.args) == 2 and \
+            any(hr.same(a_, cr) or sym.to_poly(a_) == sym.to_poly(cr) for a_ in ar.args) and any(is_lbl(a_, nv, st) for a_ in ar.args)
+        if hr.same(cr, ar) or sym.to_poly(cr) == sym.to_poly(ar) or sym.to_poly(crn) == sym.to_poly(arn):
             ctx.ok("C09-D3", S(st), "stored label == tested candidate")
+        elif is_min:
+            ctx.ok("C09-D3", S(st), "stored label == min(candidate, label) under the test label > candidate")
+        elif any(is_lbl(x_, nv, st) for x_ in au.walk(ar)) or any(isinstance(x_, ast.Call) and au.call_tail(x_) not in ("float", "int", "abs", "len") for x_ in au.walk(ar)
+                                                                  if not any(hr.same(x_, y_) for y_ in au.walk(cr))):
+            d3_ok = False
+            und("C09-D3", st, "the value stored as the new label is not the tested candidate in a form the rule recognises")
         else:
             d3_ok = False
             ctx.fail("C09-D3", S(st), "label is updated with a value different from the candidate that was tested",
@@ -1804,17 +2039,22 @@ def _dijkstra_loop(ctx, modname, fn0, F, Q, loop, item):
                 ctx.fail("C09-D3", s3, "edge weight of the relaxation does not depend on both the expanded node and the neighbour",
                          f"weight `{' + '.join(_generic(w, LBL, nv, v) for w in wts)}` must be the weight of the edge (v, nv)")
         elif any(is_lbl(x, nv) for x in terms):
-            ctx.fail("C09-D3", s3, f"candidate `{_generic(cres, LBL, nv, v)}` is not `label[v] + weight`",
-                     "the tentative distance of a neighbour is the settled distance of the expanded vertex plus the edge weight")
+            ctx.fail("C09-D3", s3, "the candidate label is not `label[v] + weight`",
+                     f"`{_generic(cres, LBL, nv, v)}`: the tentative distance of a neighbour is the settled distance of the expanded vertex plus the edge weight")
         elif len(base) == 1 and not wts:
-            ctx.fail("C09-D3", s3, f"candidate `{_generic(cres, LBL, nv, v)}` is not `label[v] + weight`", "the edge weight is missing")
+            ctx.fail("C09-D3", s3, "the candidate label is not `label[v] + weight`", f"`{_generic(cres, LBL, nv, v)}`: the edge weight is missing")
         else:
             und("C09-D3", st0, "the candidate label is not of the form label[v] + weight", _generic(cres, LBL, nv, v)[:60])
     # predecessor
     cmp_key = hr.key(roles["cmp"]) if "cmp" in roles else None
     pred_stores = []
     stray_pred = []
+    compound_pred = []
     for st, tg, val in stores:
+        if not isinstance(tg.value, ast.Name) and isinstance(tg.slice, ast.Name) and val is not None and F.root(tg.slice.id, st) == F.root(nv, st) \
+                and not isinstance(val, ast.Constant):
+            compound_pred.append(st)        # table["pred"][nv] = v : a table reached through another subscript
+            continue
         if not isinstance(tg.value, ast.Name) or tg.value.id in (LBL, vis) or not isinstance(tg.slice, ast.Name) or val is None:
             continue
         if F.root(tg.slice.id, st) != F.root(nv, st):
@@ -1823,6 +2063,9 @@ def _dijkstra_loop(ctx, modname, fn0, F, Q, loop, item):
             continue
         pv_ = F.resolve(val, st, keep=keep)
         if not isinstance(pv_, ast.Name):
+            if isinstance(pv_, (ast.Tuple, ast.List)) or (v in au.names(pv_) and not any(sk.is_sub(x, LBL) for x in au.walk(pv_))) or \
+                    (isinstance(pv_, ast.Call) and not any(sk.is_sub(x, LBL) for x in au.walk(pv_))):
+                compound_pred.append(st)    # (v, edge), edge_id(a, b) .. : a predecessor record the rule does not read
             continue                 # another per-node table (hop count ..), not a predecessor
         conds = LC(st, keep=keep)
         under = cmp_key is not None and any(hr.key(e) == cmp_key for e, p in conds)
@@ -1839,14 +2082,19 @@ def _dijkstra_loop(ctx, modname, fn0, F, Q, loop, item):
             if okp:
                 ctx.ok("C09-D3", S(st), "predecessor[nv] = expanded node / crossed edge")
             elif isinstance(pv, ast.Name):
-                ctx.fail("C09-D3", S(st), f"predecessor of the neighbour is set to `{_generic(pv, LBL, nv, v)}`, not to the expanded node (or the edge crossed)",
-                         "back-tracking follows pred[] from the target to the start")
+                ctx.fail("C09-D3", S(st), "the predecessor of the neighbour is not set to the expanded node (or the edge crossed)",
+                         f"it is set to `{_generic(pv, LBL, nv, v)}`: back-tracking follows pred[] from the target to the start")
             else:
                 und("C09-D3", st, "the value stored as predecessor is not a plain node / edge variable", au.src(pv)[:50])
         other = [(st, tg, val) for st, tg, val in stray_pred if tg.value.id == PRED]
-        if other:
+        if other and any(not (hr.flag_test(e_, p_) or isinstance(e_, ast.Compare)) for st_, tg_, val_ in other for e_, p_ in LC(st_, keep=keep)):
+            und("C09-D3", other[0][0], "the predecessor table is also written under a condition the rule does not recognise")
+        elif other:
             ctx.fail("C09-D3", S(other[0][0]), "predecessor table is also written outside the guarded relaxation block",
                      "label and predecessor must change together")
+    elif d3_ok and [x for x in stray_pred if any(not (hr.flag_test(e_, p_) or isinstance(e_, ast.Compare)) for e_, p_ in LC(x[0], keep=keep))]:
+        und("C09-D3", stray_pred[0][0], "the predecessor is updated under a condition the rule does not recognise")
+        roles["PRED"] = stray_pred[0][1].value.id
     elif d3_ok and [x for x in stray_pred if isinstance(F.resolve(x[2], x[0], keep=keep), ast.Name) and
                     (F.resolve(x[2], x[0], keep=keep).id == v or F.resolve(x[2], x[0], keep=keep).id in ftargets)]:
         ctx.fail("C09-D3", S(stray_pred[0][0]), "predecessor table is written outside the guarded relaxation block",
@@ -1854,6 +2102,8 @@ def _dijkstra_loop(ctx, modname, fn0, F, Q, loop, item):
         roles["PRED"] = stray_pred[0][1].value.id
     elif opaque:
         und("C09-D3", st0, "the predecessor update is not visible (a helper receives the loop variables)")
+    elif compound_pred:
+        und("C09-D3", compound_pred[0], "the predecessor is recorded as a compound value the rule does not read")
     elif d3_ok:
         ctx.fail("C09-D3", s3, "predecessor is not updated in the block that updates the label",
                  "label and predecessor must change together, otherwise back-tracking follows a predecessor that belongs to a longer path")
@@ -1896,7 +2146,8 @@ def _dijkstra_loop(ctx, modname, fn0, F, Q, loop, item):
             else:
                 why_bad.append(("und", f"priority `{au.src(pr_)[:30]}`"))
             continue
-        if not after:
+        if not after and not is_cand and not (isinstance(pr_, ast.Name) and pr_.id in mirrors):
+            # only a priority READ from the label table can be stale; the candidate itself may be pushed before it is stored
             why_bad.append(("fail", "the neighbour is pushed with its label before the label is updated (stale label)"))
             continue
         extra = [(e, p) for e, p in F.conds(c, stop=nloop, keep=keep)
@@ -1934,8 +2185,24 @@ def _dijkstra_loop(ctx, modname, fn0, F, Q, loop, item):
         und("C09-D4", pushes[0] if pushes else loop, "the push of the relaxed neighbour is not recognised", "; ".join(t for k, t in why_bad))
     # initialisation
     ivals, found = F.initial_values(LBL, loop)
+    lbl_def0 = F.definition(LBL, loop)
+    if isinstance(lbl_def0, ast.Dict):
+        pushed0 = [c_.args[0] for c_ in au.calls(F.fn) if q_call(c_, ("push",)) and len(c_.args) == 2 and F.before(c_, loop) and not F.inside(c_, loop)]
+        ivals = [v_ for k_, v_ in zip(lbl_def0.keys, lbl_def0.values) if not (k_ is not None and any(hr.same(k_, x_) for x_ in pushed0))]
+    get_inf = [c_ for c_ in au.calls(F.fn) if isinstance(c_.func, ast.Attribute) and c_.func.attr == "get" and isinstance(c_.func.value, ast.Name)
+               and F.root(c_.func.value.id, c_) == F.root(LBL, loop) and len(c_.args) == 2 and F.is_inf(c_.args[1])]
     if any(F.is_inf(x) for x in ivals):
         ctx.ok("C09-D4", site, "labels start at +inf")
+    elif get_inf:
+        ctx.ok("C09-D4", site, "a missing label reads as +inf (dict.get with an infinite default)")
+    elif found and ivals and all(order.fold_const(x) is not None and abs(order.fold_const(x)) <= 1 for x in ivals) and \
+            [st_ for st_ in au.stmts(F.fn.body) if isinstance(st_, ast.AugAssign) and F.before(st_, loop) and isinstance(st_.target, ast.Subscript)
+             and isinstance(st_.target.value, ast.Name) and F.root(st_.target.value.id, st_) == F.root(LBL, loop)]:
+        und("C09-D4", loop, "the labels are modified in bulk before the loop")
+    elif found and ivals and all(order.fold_const(x) is not None and abs(order.fold_const(x)) <= 1 for x in ivals) and \
+            any(isinstance(e_, ast.BoolOp) or (isinstance(e_, ast.Compare) and any(order.fold_const(x_) is not None or hr.is_none(x_) for x_ in [e_.left] + list(e_.comparators)))
+                for e_, p_ in conds0):
+        und("C09-D4", loop, "the labels start at a sentinel other than +inf that the relaxation tests explicitly")
     elif found and ivals and all(order.fold_const(x) is not None and abs(order.fold_const(x)) <= 1 for x in ivals):
         ctx.fail("C09-D4", site, "labels are not initialised to +inf", "an unreached vertex must lose every comparison `label[nv] > candidate`")
     else:
@@ -1959,13 +2226,27 @@ def _dijkstra_loop(ctx, modname, fn0, F, Q, loop, item):
                 if k_ is not None and hr.same(k_, c.args[0]) and cv is not None and cv != float("inf"):
                     ok_init = True
                     roles["start"] = c.args[0]
+    if not ok_init and lbl_def is not None:
+        for c in pre_push:
+            for n_ in ast.walk(lbl_def):
+                if isinstance(n_, ast.IfExp) and isinstance(n_.test, ast.Compare) and len(n_.test.ops) == 1 and isinstance(n_.test.ops[0], (ast.Eq, ast.NotEq, ast.Is, ast.IsNot)) \
+                        and any(hr.same(F.resolve(x_, loop), F.resolve(c.args[0], c)) or hr.same(x_, c.args[0]) for x_ in [n_.test.left, n_.test.comparators[0]]):
+                    at_start = n_.body if isinstance(n_.test.ops[0], (ast.Eq, ast.Is)) else n_.orelse
+                    cv = order.fold_const(at_start)
+                    if cv is not None and cv != float("inf") and cv == cv and order.fold_const(c.args[1]) is not None:
+                        ok_init = True
+                        roles["start"] = c.args[0]
     uniform_ctor = isinstance(lbl_def, (ast.DictComp, ast.ListComp)) or (isinstance(lbl_def, ast.Call) and au.call_tail(lbl_def) in ("dict", "fromkeys")) \
         or (isinstance(lbl_def, ast.BinOp) and isinstance(lbl_def.op, ast.Mult))
     if ok_init:
         ctx.ok("C09-D4", site, "label[start] = 0 and push(start, 0) before the loop")
-    elif pre_push and not pre_lab and found and uniform_ctor:
+    elif pre_push and not pre_lab and found and uniform_ctor and ivals and all(F.is_inf(x) for x in ivals) \
+            and not any(isinstance(n_, ast.IfExp) for n_ in ast.walk(lbl_def)):
         ctx.fail("C09-D4", site, "start is not both given a finite label and pushed before the loop",
                  f"{len(pre_push)} push(es) and no label store before the loop")
+    elif pre_lab and not pre_push and [n_ for n_ in au.walk(F.fn) if isinstance(n_, ast.Name) and n_.id == Q and isinstance(n_.ctx, ast.Load)
+                                       and F.before(au.enclosing_stmt(n_), loop) and not F.inside(n_, loop)]:
+        und("C09-D4", loop, "the queue is filled before the loop in a way the rule does not recognise")
     elif pre_lab and not pre_push and not F.opaque(F.fn, {Q}):
         ctx.fail("C09-D4", site, "start is not both given a finite label and pushed before the loop",
                  f"no push and {len(pre_lab)} label store(s) before the loop")
@@ -2022,10 +2303,13 @@ def w1_weight_modes(ctx):
     F = _flat(ctx, PATHS, fn0)
     params = set(F.params)
     n = 0
+    called_in_loop = {c_.func.id for lp_ in au.walk(F.fn) if isinstance(lp_, ast.While) for c_ in au.calls(lp_) if isinstance(c_.func, ast.Name)}
     for name, st, ps, body in _callable_bodies(F):
         s = ctx.site(PATHS, fn0, st)
         if len(ps) != 2:
             continue   # arity is C09-A1's business; one-argument callables are not edge weights
+        if name not in called_in_loop and not any(isinstance(n_, ast.Name) and n_.id == name for lp_ in au.walk(F.fn) if isinstance(lp_, ast.While) for n_ in au.walk(lp_)):
+            continue   # a two-argument callable that the search never uses is not an edge weight
         n += 1
         if body is None:
             ctx.undecided("C09-W1", s, "a weight callable is not a single expression", "")
@@ -2035,8 +2319,22 @@ def w1_weight_modes(ctx):
             continue
         body_r = F.resolve(body, st, keep=tuple(ps))
         used = au.names(body_r)
-        ctx.check(set(ps) <= used, "C09-W1", s, "a weight callable ignores one endpoint of the edge",
-                  f"`{_lam_generic(body, ps)}` must be the weight of the edge between its two arguments", note="weight reads both endpoints")
+
+        def _numeric(e_):
+            if order.fold_const(e_) is not None:
+                return True
+            return isinstance(e_, ast.Call) and au.call_tail(e_) in ("float", "int", "float64", "float32") and len(e_.args) == 1 and _numeric(e_.args[0])
+        if _numeric(body_r):
+            ctx.ok("C09-W1", s, "constant weight")
+            continue
+        if set(ps) <= used:
+            ctx.ok("C09-W1", s, "weight reads both endpoints")
+        elif not (set(ps) & used):
+            ctx.undecided("C09-W1", s, "a weight callable reads neither endpoint (a uniform weight the rule cannot evaluate)", "")
+            continue
+        else:
+            ctx.fail("C09-W1", s, "a weight callable ignores one endpoint of the edge",
+                     f"`{_lam_generic(body, ps)}` must be the weight of the edge between its two arguments")
         for sub in [x for x in au.walk(body_r) if isinstance(x, ast.Subscript) and isinstance(x.value, ast.Name)]:
             k = sub.slice
             is_edge_key = isinstance(k, ast.Call) and au.call_tail(k) == "edge_id" and len(k.args) == 2 and \
@@ -2058,6 +2356,9 @@ def w1_weight_modes(ctx):
         vs = [x for x in au.walk(body_r) if isinstance(x, ast.Subscript) and isinstance(x.value, ast.Attribute) and x.value.attr == "vertices"]
         if vs:
             idxs = sorted(x.slice.id if isinstance(x.slice, ast.Name) else "?" for x in vs)
+            if "?" in idxs or not set(idxs) <= set(ps):
+                ctx.undecided("C09-W1", s, "the coordinates read by the length weight are not indexed by the plain endpoints", "")
+                continue
             ctx.check(idxs == sorted(ps), "C09-W1", s, "length weight does not measure the distance between the two endpoints",
                       f"coordinates read at {['u' if i == ps[0] else 'v' if i == ps[1] else '?' for i in idxs]}", note="length = distance(P[u], P[v])")
     if n < 1:
@@ -2101,6 +2402,10 @@ def w1_weight_modes(ctx):
             keys = sorted((rn(tg.value.slice, st), rn(tg.slice, st)) for st, tg, val in grp)
             if keys == sorted([(u, w), (w, u)]):
                 ctx.ok("C09-W1", s, "adj[u][v] and adj[v][u]")
+            elif set(keys) < {(u, w), (w, u)} and any((set(gk) < set(gk2) or set(gk2) < set(gk)) and ({(u, w), (w, u)} - set(keys)) & {(rn(tg2.value.slice, st2), rn(tg2.slice, st2)) for st2, tg2, v2 in grp2}
+                                                       for gk2, grp2 in groups.items() if gk2 != gk):
+                ctx.undecided("C09-W1", s, "the two directions of an edge are stored under different conditions", "")
+                continue
             elif set(keys) < {(u, w), (w, u)}:
                 _absent(ctx, F, lp, "C09-W1", s, "adjacency weights of the vertex-set query are not stored for both directions of the edge",
                         f"{len(keys)} store(s): the graph is undirected: w(u,v) and w(v,u) are both needed")
@@ -2110,8 +2415,19 @@ def w1_weight_modes(ctx):
                 continue
             keepn = (u, w) + ((idx.id,) if isinstance(idx, ast.Name) else ())
             vals = [F.resolve(val, st, keep=keepn) for st, tg, val in grp]
-            ctx.check(all(hr.same(vals[0], x) for x in vals), "C09-W1", s, "the two directions of an edge receive different weights", "",
-                      note="same weight in both directions")
+            # a direction that copies the entry just stored for the other direction has the same weight
+            tgs = [tg for st, tg, val in grp]
+            vals = [x for x in vals if not any(hr.same(x, t_) for t_ in tgs)] or vals[:1]
+            def _sym_same(x_, y_):
+                return isinstance(x_, ast.Call) and isinstance(y_, ast.Call) and hr.same(x_.func, y_.func) and len(x_.args) == len(y_.args) == 2 \
+                    and not x_.keywords and not y_.keywords and au.call_tail(x_) in ("distance", "norm", "dist", "edge_id") \
+                    and sorted(au.src(a_) for a_ in x_.args) == sorted(au.src(a_) for a_ in y_.args)
+            if all(hr.same(vals[0], x) or _sym_same(vals[0], x) for x in vals):
+                ctx.ok("C09-W1", s, "same weight in both directions")
+            elif all(au.names(x) == au.names(vals[0]) for x in vals) and not any(isinstance(n_, ast.Name) and F.root(n_.id, lp) == adj for x in vals for n_ in ast.walk(x)):
+                ctx.fail("C09-W1", s, "the two directions of an edge receive different weights", "")
+            else:
+                ctx.undecided("C09-W1", s, "the weights stored for the two directions of an edge are written differently", "")
             v0 = vals[0]
             if order.fold_const(v0) is not None:
                 continue
@@ -2137,6 +2453,9 @@ def w1_weight_modes(ctx):
             vs = [x for x in au.walk(v0) if isinstance(x, ast.Subscript) and isinstance(x.value, ast.Attribute) and x.value.attr == "vertices"]
             if vs:
                 idxs = sorted(x.slice.id if isinstance(x.slice, ast.Name) else "?" for x in vs)
+                if "?" in idxs or not set(idxs) <= {u, w}:
+                    ctx.undecided("C09-W1", s, "the coordinates read by the length weight are not indexed by the plain endpoints", "")
+                    continue
                 ctx.check(idxs == sorted([u, w]), "C09-W1", s, "length weight does not measure the distance between the two endpoints",
                           "", note="length = distance(P[u], P[v])")
     if n_loops < 1:
@@ -2163,7 +2482,13 @@ def w1_weight_modes(ctx):
         if not lps:
             continue
         lp = lps[0]
-        whole = isinstance(lp.iter, ast.Name) and lp.iter.id in params
+        it_ = lp.iter
+        if isinstance(it_, ast.Subscript) and isinstance(it_.slice, ast.Slice) and (it_.slice.lower is None or au.const(it_.slice.lower) == 0) \
+                and it_.slice.upper is None and (it_.slice.step is None or au.const(it_.slice.step) == 1):
+            it_ = it_.value                     # targets[:] : a copy of the whole list
+        if isinstance(it_, ast.Call) and au.call_tail(it_) in ("list", "tuple", "set", "sorted", "frozenset") and len(it_.args) == 1:
+            it_ = it_.args[0]
+        whole = isinstance(it_, ast.Name) and (it_.id in params or F.root(it_.id, lp) in params)
         unguarded = not F.conds(st, stop=lp) and (dj_loop is None or F.unconditional(lp, dj_loop))
         zero = val is not None and order.fold_const(val) == 0
         if whole and unguarded and zero:
@@ -2171,9 +2496,13 @@ def w1_weight_modes(ctx):
         elif verdict is None:
             if not zero and val is not None and order.fold_const(val) is not None:
                 verdict = ("fail", "the link to the virtual sink does not have weight 0")
-            elif isinstance(lp.iter, ast.Subscript) and isinstance(lp.iter.value, ast.Name) and lp.iter.value.id in params and isinstance(lp.iter.slice, ast.Slice):
+            elif isinstance(lp.iter, ast.Subscript) and isinstance(lp.iter.value, ast.Name) and lp.iter.value.id in params and isinstance(lp.iter.slice, ast.Slice) \
+                    and ((lp.iter.slice.lower is not None and au.const(lp.iter.slice.lower) != 0) or lp.iter.slice.upper is not None or
+                         (lp.iter.slice.step is not None and au.const(lp.iter.slice.step) != 1)) \
+                    and all(x_ is None or isinstance(au.const(x_), int) for x_ in (lp.iter.slice.lower, lp.iter.slice.upper, lp.iter.slice.step)):
                 verdict = ("fail", "only a slice of the target list is linked to the virtual sink")
-            elif whole and zero and F.conds(st, stop=lp):
+            elif whole and zero and any(t in au.names(e_) for e_, p_ in F.conds(st, stop=lp)) and not any(hr.flag_test(e_, p_) for e_, p_ in F.conds(st, stop=lp)) \
+                    and not any((Sn in au.names(e_)) or any(isinstance(n_, ast.Name) and F.root(n_.id, st) == adj for n_ in ast.walk(e_)) for e_, p_ in F.conds(st, stop=lp)):
                 verdict = ("fail", "targets are linked to the virtual sink only under a condition")
     if verdict == "ok":
         ctx.ok("C09-W1", site, "adj[s][SINK] = 0 for every target")
@@ -2212,6 +2541,13 @@ def b1_backtracking(ctx, roles_by_fn):
                 ctx.undecided(R, s, msg, "what is recorded by this loop is not analysed here (aliasing of the result lists: see C09-B2)")
                 continue
             pr_roots = {F.root(p_, lp) for p_ in preds}
+            pdef = F.definition(w.pred, lp)
+            fed = [st_ for st_ in au.stmts(F.fn.body) if not isinstance(st_, (ast.For, ast.While, ast.If)) and
+                   any(isinstance(n_, ast.Name) and F.root(n_.id, st_) == w.pred for n_ in ast.walk(st_)) and
+                   any(isinstance(n_, ast.Name) and (n_.id in preds or F.root(n_.id, st_) in pr_roots) for n_ in ast.walk(st_))]
+            if preds and w.pred not in pr_roots and (w.pred in F.params or fed or (pdef is not None and (au.names(pdef) & (preds | pr_roots)))):
+                ctx.undecided(R, s, "the table walked by the back-tracking is derived from the predecessor table in a way the rule does not follow", "")
+                continue
             if preds and w.pred not in pr_roots:
                 ctx.fail(R, s, "back-tracking does not step with `v = predecessor[v]` on the table written by the relaxation",
                          "the table walked by the loop is not the predecessor table filled next to the labels")
@@ -2224,6 +2560,14 @@ def b1_backtracking(ctx, roles_by_fn):
             origin_is_sentinel = None
             if isinstance(origin, ast.Name):
                 origin_is_sentinel = origin.id in sents or F.root(origin.id, lp) in sents
+                if not origin_is_sentinel:
+                    # a local constant-like name (None, len(..), a string ..) that is no parameter and no loop variable may be another spelling of the sink
+                    r0_ = F.root(origin.id, lp)
+                    d0_ = F.b.defs.get(r0_) if F.b.single(r0_) else None
+                    if r0_ not in F.params and d0_ is not None and not isinstance(d0_, tuple) and \
+                            (isinstance(d0_, ast.Constant) or (isinstance(d0_, ast.Call) and au.call_tail(d0_) in ("len", "object", "max"))
+                             or isinstance(d0_, (ast.BinOp, ast.UnaryOp))):
+                        origin_is_sentinel = None
             rec_first = w.has_origin and not w.has_start
             hf_walk.follow(F, w, start_names)
             if w.problem:
@@ -2249,8 +2593,24 @@ def b1_backtracking(ctx, roles_by_fn):
                 ctx.fail(R, s, "back-tracking steps before recording but does not start from the virtual sink: the target itself is dropped from the path", why)
                 continue
             ctx.ok(R, s, "target .. start recorded once each" if not origin_is_sentinel else "sink excluded, nearest target .. start recorded once each")
+            later_rev = []
+            if w.orient != "start-first":
+                # a reversal somewhere after the walk that the model did not consume (a second loop over the result, a reversed copy ..)
+                handled_ = getattr(w, "handled", [])
+                for n_ in au.walk(F.fn):
+                    rev_ = (isinstance(n_, ast.Call) and au.call_tail(n_) in ("reverse", "reversed", "flip")) or \
+                        (isinstance(n_, ast.Slice) and n_.step is not None and au.const(n_.step) == -1)
+                    if rev_:
+                        st_ = au.enclosing_stmt(n_) if not isinstance(n_, ast.stmt) else n_
+                        if st_ is None or F.inside(st_, lp) or not F.before(lp, st_):
+                            continue
+                        consumed = any(st_ is h_ for h_ in handled_) and (w.final_use is None or F.before(st_, w.final_use))
+                        if not consumed:
+                            later_rev.append(n_)
             if w.orient == "start-first":
                 ctx.ok(R, s, "list ends in start-to-target order")
+            elif later_rev:
+                ctx.undecided(R, s, "the back-tracked list is stored before a later reversal the rule does not follow", "")
             else:
                 ctx.fail(R, s, "back-tracked list is not reversed exactly once after the loop",
                          "nodes are collected from the target towards the start; the returned path must begin at `start`")
@@ -2322,7 +2682,15 @@ def b2_fresh_paths(ctx):
                 via = None
                 if src_key is None and isinstance(v, ast.Name) and v.id in name_keys:
                     src_key, via = name_keys[v.id][0], v.id
-                if src_key is not None and not hr.same(src_key, t.slice):
+                def same_key(k1, at1, k2, at2):
+                    if hr.same(k1, k2):
+                        return True
+                    # the same key through local copies (`v = t` ... paths[v]) : compared by the roots of the names where they are read
+                    if isinstance(k1, ast.Name) and isinstance(k2, ast.Name):
+                        return F.root(k1.id, at1) == F.root(k2.id, at2) or F.root(k1.id, at1) == k2.id or F.root(k2.id, at2) == k1.id
+                    return False
+                src_at = name_keys[via][1] if via else st
+                if src_key is not None and not same_key(src_key, src_at, t.slice, st):
                     shared_entries.append((st, t))
                     if via:
                         shared_names[via] = name_keys[via][1]
@@ -2355,8 +2723,8 @@ def r1_forwarding(ctx):
     n = 0
     for q, fn in sorted(top.items()):
         for c in au.calls(fn, into_funcs=True):
-            if not (isinstance(c.func, ast.Name) and c.func.id in top):
-                continue
+            if not (isinstance(c.func, ast.Name) and c.func.id in top) or hf_flat.is_private(c.func.id):
+                continue                # private helpers are inlined and analysed with their caller
             callee = top[c.func.id]
             ps = [a.arg for a in callee.args.posonlyargs + callee.args.args]
             if any(isinstance(a, ast.Starred) for a in c.args):
@@ -2370,6 +2738,13 @@ def r1_forwarding(ctx):
                 if kw.arg and isinstance(kw.value, ast.Name) and kw.value.id in ps and kw.value.id != kw.arg:
                     bad.append((kw.value.id, kw.arg))
             too_many = len(c.args) > len(ps) and not callee.args.vararg
+            # a swap: the variable that lands in parameter p comes from a name whose own parameter receives another parameter's name (a cycle);
+            # a variable that merely shares its name with another parameter (`v` passed as `u` while `nv` is passed as `v`) is no evidence
+            into = dict((p_, a_) for a_, p_ in bad)
+            cyc = [(a_, p_) for a_, p_ in bad if a_ in into]
+            if bad and not cyc and not too_many:
+                ctx.undecided("C09-R1", ctx.site(PATHS, fn, c), f"call of {c.func.id} passes a variable named like another parameter of the callee", "")
+                continue
             ctx.check(not bad and not too_many, "C09-R1", ctx.site(PATHS, fn, c),
                       f"call of {c.func.id} passes " + ", ".join(f"`{a}` into parameter `{p}`" for a, p in bad) if bad else
                       f"call of {c.func.id} passes too many arguments",
@@ -2396,6 +2771,25 @@ def r1_forwarding(ctx):
             amap = sk.resolve_positional(c, callee) or {}
             missing = [p_ for p_ in shared if p_ not in amap]
             n2 += 1
+            cond_names = set()
+            alias_of = {}
+            for st_ in au.stmts(fn.body):
+                for nm_, v_ in sym.split_assign(st_):
+                    src_names = au.names(v_) & mine
+                    if src_names and (isinstance(v_, ast.Name) or (isinstance(v_, ast.Call) and au.call_tail(v_) == "bool") or isinstance(v_, (ast.UnaryOp, ast.Compare))):
+                        alias_of[nm_] = src_names
+            for e_, p_ in sk.atoms(sk.path_conds(c)):
+                cond_names |= au.names(e_)
+                for x_ in au.names(e_):
+                    cond_names |= alias_of.get(x_, set())
+            # the option is dealt with by the caller itself in the statements that follow the call (same block)
+            cst_ = au.enclosing_stmt(c)
+            blk_, _o = au.enclosing_block(cst_) if cst_ is not None else (None, None)
+            after_ = blk_[sk.index_in(blk_, cst_) + 1:] if blk_ is not None else []
+            used_elsewhere = {n_.id for st_ in after_ for n_ in ast.walk(st_) if isinstance(n_, ast.Name) and isinstance(n_.ctx, ast.Load) and n_.id in missing}
+            if missing and all(m_ in cond_names or m_ in used_elsewhere for m_ in missing):
+                ctx.undecided("C09-R2", ctx.site(PATHS, fn, c), f"{q} calls {c.func.id} on a branch that tests the option it does not forward", "")
+                continue
             ctx.check(not missing, "C09-R2", ctx.site(PATHS, fn, c),
                       f"{q} calls {c.func.id} without forwarding its own option(s) {', '.join('`' + m_ + '`' for m_ in missing)}",
                       f"{c.func.id} then runs with its default for {', '.join(missing)} whatever the caller of {q} asked for "
